@@ -116,11 +116,13 @@ def seq_axioms():
         z3.ForAll([x, y, zz], cat(cat(x, y), zz) == cat(x, cat(y, zz))),
         z3.ForAll([x], cat(x, sempty) == x), z3.ForAll([x], cat(sempty, x) == x),
         z3.ForAll([x, y], slen(cat(x, y)) == slen(x) + slen(y)), slen(sempty) == 0, z3.ForAll([x], slen(x) >= 0),
-        z3.ForAll([a, lo, hi], z3.Implies(lo <= hi, slen(sl(a, lo, hi)) == hi - lo)),
-        z3.ForAll([a, lo], sl(a, lo, lo) == sempty),
         z3.ForAll([k], slen(sbyte(k)) == 1),
-        z3.ForAll([a, lo], sl(a, lo, lo + 1) == sbyte(z3.Select(a, lo))),
     ]
 
 def split_fact(a, l, k, h):
     return z3.Implies(z3.And(l <= k, k <= h), sl(a, l, h) == cat(sl(a, l, k), sl(a, k, h)))
+
+def sl_facts(a, lo, hi):
+    """ground instances of the array-indexed axioms of sl (quantifying over arrays makes every solver give up)"""
+    t = sl(a, lo, hi)
+    return [z3.Implies(lo <= hi, slen(t) == hi - lo), z3.Implies(lo == hi, t == sempty), z3.Implies(hi == lo + 1, t == sbyte(z3.Select(a, lo)))]
